@@ -63,7 +63,10 @@ def expand_extracts(harness, repo):
 
 
 def prepare_crate(repo, verif, unit):
-    lock = open(os.path.join(repo, "Cargo.lock"), "rb").read()
+    lock_path = os.path.join(repo, "Cargo.lock")
+    if not os.path.exists(lock_path):      # Cargo.lock is git-ignored in this repository: a fresh worktree has none
+        lock_path = "/repo/Cargo.lock"
+    lock = open(lock_path, "rb").read()
     key = hashlib.sha256(lock).hexdigest()[:12]
     d = os.path.join(CACHE_ROOT, key)
     os.makedirs(d, exist_ok=True)
